@@ -9,7 +9,7 @@ CONFIG = {
         "until_nil_means_idle", "until_none_nothing_running", "shutdown_keeps_synchronizing", "channel_bounded",
     ],
     "harnesses": [
-        {"cmd": "client", "cases_quick": 400, "cases_thorough": 12000, "shards_quick": 8, "shards_thorough": 32, "race": True},
+        {"cmd": "client", "cases_quick": 400, "cases_thorough": 6000, "shards_quick": 8, "shards_thorough": 32, "race": True},
     ],
     "trusted_base": [
         "hand-written model coq/theories/Client/Model.v of build_client.go (Run as one step; executor goroutine as a second thread with update/finish/close steps; 10-slot channel incl. a sender parked on a full buffer), tied by correspondence harness/cmd/client",
